@@ -38,18 +38,6 @@ def size_ladder(ctx, L):
     var, loop = templ.member_loop(f)
     props = predabs.model_props(ctx.py)
     ev = predabs.Evaluator(props, var)
-    chains = [s for s in loop.body if isinstance(s, ast.If)]
-    if len(chains) != 2:
-        raise AnalysisError('generate_struct_get_byte_size: expected the kind ladder and the marker group (found %d ifs)' % len(chains))
-    rows = []
-    for ob in templ.if_chain(chains[0]):
-        inner = [s for s in ob.body if isinstance(s, ast.If)]
-        if inner:
-            for ib in templ.if_chain(inner[0]):
-                rows.append((ob.guards + ib.guards, ib.body, ib.node))
-        else:
-            rows.append((ob.guards, ob.body, ob.node))
-    dom = [a for a in predabs.domain() if a.padding == 0]
     want = {
         'static': "bytes_ += m.byte_size + max(m.padding, 0)",
         'count*size': "elems += ['{0}.size() * {1}'.format(m.name, _get_byte_size(m))]",
@@ -58,6 +46,39 @@ def size_ladder(ctx, L):
     }
     static_alt = ["bytes_ += m.byte_size + max(m.padding, 0)", "bytes_ += m.byte_size + (m.padding if m.padding > 0 else 0)",
                   "bytes_ += m.byte_size + max(0, m.padding)"]
+    group = ("elems = ['prophy::detail::nearest<{0}>(\\n'.format(abs(m.padding)) + _indent(' + '.join(elems)) + '\\n)']")
+
+    def mentions_member(e):
+        return any(isinstance(x, ast.Name) and x.id == var for x in ast.walk(e))
+
+    def execute(stmts, am, maybe, out):
+        """Abstract execution of the loop body for one abstract member: the simple statements it runs, in order; a guard
+        over the member is decided by the predicate abstraction, a guard over generator state (`if bytes_:`) forks as
+        'maybe'. Returns False when the iteration ended with `continue`."""
+        for st in stmts:
+            if isinstance(st, ast.If):
+                if mentions_member(st.test):
+                    try:
+                        t = bool(ev.ev(st.test, am))
+                    except predabs.Unknown as e:
+                        raise AnalysisError('generate_struct_get_byte_size: guard term not recognised: %s' % e)
+                    if not execute(st.body if t else st.orelse, am, maybe, out):
+                        return False
+                else:
+                    g = re.sub(r'\s+', ' ', unparse(st.test))
+                    r1 = execute(st.body, am, maybe + [g], out)
+                    r2 = execute(st.orelse, am, maybe + ['not ' + g], out)
+                    if r1 != r2:
+                        raise AnalysisError('generate_struct_get_byte_size: `continue` under a state guard')
+                    if not r1:
+                        return False
+            elif isinstance(st, ast.Continue):
+                return False
+            elif isinstance(st, (ast.Assign, ast.AugAssign, ast.Expr)):
+                out.append((re.sub(r'\s+', ' ', unparse(st)), tuple(maybe), st))
+            else:
+                raise AnalysisError('generate_struct_get_byte_size: statement kind %s not modelled' % type(st).__name__)
+        return True
 
     def expected(a):
         dyn_elem = a.kind != predabs.FIXED
@@ -66,29 +87,33 @@ def size_ladder(ctx, L):
         if dyn_elem:
             return 'nested'
         return 'static'     # plain, optional, sizer, fixed and limited arrays of fixed elements: static slot
+    flush = [('elems += [str(bytes_)]', ('bytes_',)), ('bytes_ = 0', ('bytes_',))]
     n = 0
-    for a in dom:
-        try:
-            hits = [i for i, (g, body, node) in enumerate(rows) if predabs.truth(ev, g, a)]
-        except predabs.Unknown as e:
-            raise AnalysisError('generate_struct_get_byte_size: guard term not recognised: %s' % e)
-        ok = len(hits) == 1
-        got = re.sub(r'\s+', ' ', unparse(rows[hits[0]][1])) if ok else ''
+    for a in predabs.domain(paddings=(0, 3, -8)):
+        eff = []
+        execute(loop.body, a, [], eff)
+        terms = [(t, mb, st) for t, mb, st in eff if t in set(want.values()) | set(static_alt)]
         exp = expected(a)
-        good = ok and (got in static_alt if exp == 'static' else got == want[exp])
+        got = terms[0][0] if len(terms) == 1 and not terms[0][1] else ' ; '.join(t for t, _, _ in terms)
+        good = len(terms) == 1 and not terms[0][1] and (got in static_alt if exp == 'static' else got == want[exp])
         n += 1
-        L.check(good, 'F10.size-term', 'get_byte_size|%s' % a.label(), f.site(rows[hits[0]][2] if ok else loop),
-                'a `%s` member must contribute the size term `%s` (what its encode statement advances by); it gets `%s`'
-                % (a.label(), want[exp], got), got)
-    L.floor('F10.size-term', n, 40)
-    # the marker group: if m.padding < 0 -> wrap everything accumulated so far in nearest<abs(padding)>
-    grp = chains[1]
-    src = re.sub(r'\s+', ' ', unparse(grp))
-    L.check(re.sub(r'\s+', '', unparse(grp.test)) == 'm.padding<0' and "'prophy::detail::nearest<{0}>(\\n'.format(abs(m.padding))" in src
-            and inn('if bytes_: elems += [str(bytes_)] bytes_ = 0', src) and inn("' + '.join(elems)", src), 'F10.size-align-group',
-            'get_byte_size|nearest-group', f.site(grp),
-            'every member carrying a negative marker must close a prophy::detail::nearest<|padding|>( sum so far ) group - the '
-            'counterpart of `pos = align<N>(pos)` in encode', src[:300])
+        L.check(good, 'F10.size-term', 'get_byte_size|%s|pad%+d' % (a.label(), a.padding), f.site(terms[0][2] if terms else loop),
+                'a `%s` member (padding %+d) must contribute exactly the size term `%s` (what its encode statement advances by); it gets `%s`'
+                % (a.label(), a.padding, want[exp], got), got)
+        rest = [(t, mb) for t, mb, st in eff if (t, mb, st) not in terms]
+        if a.padding < 0:
+            # after the member's own term: flush the static bytes (if any), then wrap everything so far in nearest<|padding|>
+            okg = rest == flush + [(group, ())] and eff[0][0] == terms[0][0] if terms else False
+            why = ('a member carrying the negative marker %d must close a prophy::detail::nearest<%d>( sum so far ) group after its own '
+                   'term, whatever its kind - the counterpart of `pos = align<N>(pos)` in encode; executed: %s' % (a.padding, -a.padding, [t for t, _ in rest]))
+        else:
+            okg = rest == []
+            why = 'a member without a negative marker runs nothing but its size term; executed: %s' % [t for t, _ in rest]
+        L.check(okg, 'F10.size-align-group', 'get_byte_size|%s|pad%+d' % (a.label(), a.padding), f.site(loop), why, str(rest)[:300])
+    L.floor('F10.size-term', n, 120)
+    pre = [re.sub(r'\s+', ' ', unparse(s)) for s in f.node.body if s is not loop and f.node.body.index(s) < f.node.body.index(loop)]
+    L.check(sorted(pre) == ['bytes_ = 0', 'elems = []'], 'F10.size-align-group', 'get_byte_size|init', f.site(),
+            'the running static size and the term list start empty', str(pre))
     tail = [re.sub(r'\s+', ' ', unparse(s)) for s in f.node.body[-2:]]
     L.check(tail == ['if bytes_: elems += [str(bytes_)]', "return 'return {0};\\n'.format(' + '.join(elems))"], 'F10.size-align-group',
             'get_byte_size|tail', f.site(), 'remaining static bytes are added and all terms summed', str(tail))
